@@ -70,6 +70,18 @@ def make_stream(rng, npieces):
             t = gen.random_type(rng, exclude=midi1.REALTIME_TYPES + ('tune_request',))
             enc = midi1.encode(t, gen.random_attrs(t, rng, maxdata=6))
             out += enc[:rng.randrange(1, len(enc))]        # cut short
+        elif r < 0.80:
+            # a sysex with real-time bytes (and sometimes another message) inside
+            body = [0xF0]
+            for _ in range(rng.randrange(1, 7)):
+                x = rng.random()
+                if x < 0.3:
+                    body.append(rng.choice(list(midi1.REALTIME_BYTES) + [0xF9, 0xFD]))
+                elif x < 0.36:
+                    body += [0x90 | rng.randrange(16), rng.randrange(128), rng.randrange(128)]
+                else:
+                    body.append(rng.randrange(128))
+            out += body + ([0xF7] if rng.random() < 0.8 else [])
         elif r < 0.85:
             out += [rng.randrange(128) for _ in range(rng.randrange(1, 3))]
         elif r < 0.93:
@@ -205,6 +217,11 @@ def run_queue_case(ctx, data, cuts, rseed):
             elif r < 0.5:
                 got.extend(q.iterpoll())
             elif r < 0.6 and produced[pos] - len(got) > 0:
+                if q._queue.empty():
+                    # get() would block for ever: the queue lost a message the reference run produced
+                    ctx.check('parserqueue sequence == reference', False, 'queue-lost-message', case,
+                              {'model_pending': produced[pos] - len(got)})
+                    return
                 got.append(q.get())
         got.extend(q.iterpoll())
         ctx.check('parserqueue sequence == reference', got == ref, 'queue', case,
@@ -215,6 +232,8 @@ def run_queue_case(ctx, data, cuts, rseed):
 
 
 HAND = [
+    [0xF0, 1, 2, 0xF8, 3, 0xF7],                 # real-time byte inside a sysex
+    [0xFA, 0xF0, 1, 0xFC, 2, 0xFB, 0xF7, 0x90, 1, 2],
     [0xF0, 1, 0x90, 0x40, 0x7F, 2, 0xF7],        # sysex interrupted by a complete message
     [0x90, 0x40, 0xF8, 0x7F, 0x90, 1],
     [0xF0, 0xF8, 1, 0xFE, 2, 0xF7, 0xF7, 3],
